@@ -106,6 +106,20 @@ func VerifC31PskIdentitiesToPublic(in any) []PskIdentity {
 func VerifC31TicketKeysToPrivate(in []TicketKey) any { return TicketKeys(in).ToPrivate() }
 func VerifC31TicketKeysToPublic(in any) []TicketKey  { return ticketKeys(in.([]ticketKey)).ToPublic() }
 
+// VerifC31SuiteTables returns COPIES of the entries of the package's cipher-suite tables, as pointers to the private
+// structs (cipherSuitesTLS13, cipherSuites), so that a harness can build views of real suites.
+func VerifC31SuiteTables() (tls13 []any, tls12 []any) {
+	for _, s := range cipherSuitesTLS13 {
+		cp := *s
+		tls13 = append(tls13, &cp)
+	}
+	for _, s := range cipherSuites {
+		cp := *s
+		tls12 = append(tls12, &cp)
+	}
+	return
+}
+
 // VerifC31Pool: sample values for field types that cannot be invented by reflection
 // (funcs, interfaces, pointers to foreign key types). The harness picks, per field, a pool
 // value assignable to the field's type.
